@@ -13,10 +13,20 @@ Record case_t := {
   c_pts : list Q;            (* gf(x) for these x *)
   o_zerodiv : bool;          (* building the expression raised ZeroDivisionError *)
   o_coeffs : list Q;
-  o_values : list Q
+  o_values : list Q;
+  (* further queries on the SAME top object after the ones above, in this order: for each (k, cs),
+     [g.dx(k)[i] for i in c_idx] answered cs (the same k may be asked again) *)
+  o_dxq : list (nat * list Q)
 }.
 
 Definition tie_eval (e : expr) (g : gf) (x : Q) : Q := eval_to (max_len e) g x.
+
+(* g.dx(k) on the object built from the program is the object built from the program [EDx e k] *)
+Definition check_dxq (e : expr) (idx : list nat) (kc : nat * list Q) : bool :=
+  match build (EDx e (fst kc)) with
+  | None => false
+  | Some d => list_eqb Qeq_bool (map (coeff d) idx) (snd kc)
+  end.
 
 Definition check_case (c : case_t) : bool :=
   match build (c_expr c) with
@@ -25,4 +35,5 @@ Definition check_case (c : case_t) : bool :=
       negb (o_zerodiv c)
       && list_eqb Qeq_bool (map (coeff g) (c_idx c)) (o_coeffs c)
       && list_eqb Qeq_bool (map (tie_eval (c_expr c) g) (c_pts c)) (o_values c)
+      && forallb (check_dxq (c_expr c) (c_idx c)) (o_dxq c)
   end.
